@@ -108,13 +108,22 @@ Proof.
     (split; [reflexivity|discriminate]).
 Qed.
 
-Lemma addm_seqrecords x y : pr_kind x = KSeqRecord -> pr_kind y = KSeqRecord ->
-  exists r, py_addm x y = Ok r /\ pr_seq r = pr_seq x ++ pr_seq y
-            /\ pr_kind r = KSeqRecord /\ pr_annotations r = None.
+Lemma ann_common_topology a b :
+  an_topology a = None \/ an_topology b = None -> an_topology (ann_common a b) = None.
 Proof.
-  unfold py_addm, PyAddM_rec, is_CircularRecord, bio_add, is_SeqRecord.
-  destruct x as [kx sx ix fx ax lx], y as [ky sy iy fy ay ly]. cbn. intros -> ->.
-  eexists; (split; [reflexivity|]); cbn; auto.
+  unfold ann_common; cbn [an_topology]. intros [H|H]; rewrite H; [reflexivity|].
+  destruct (an_topology a); reflexivity.
+Qed.
+
+(* a plain SeqRecord without topology annotation: what the assembly accumulates *)
+Definition plain (r : pyrecord) : Prop := pr_kind r = KSeqRecord /\ an_topology (pr_annotations r) = None.
+
+Lemma addm_seqrecords x y : plain x -> pr_kind y = KSeqRecord ->
+  exists r, py_addm x y = Ok r /\ pr_seq r = pr_seq x ++ pr_seq y /\ plain r.
+Proof.
+  unfold plain, py_addm, PyAddM_rec, is_CircularRecord, bio_add, is_SeqRecord.
+  destruct x as [kx sx ix fx ax lx nx], y as [ky sy iy fy ay ly ny]. cbn. intros [-> Hx] ->.
+  eexists; (split; [reflexivity|]); cbn; repeat split. apply ann_common_topology. now left.
 Qed.
 
 Lemma getslice_circular r lo hi : pr_kind r = KCircularRecord ->
@@ -299,22 +308,22 @@ Qed.
 
 (* ---------- CircularRecord.__getitem__(slice) ------------------------------ *)
 
-(* a slice of a circular record is a plain SeqRecord carrying the ordinary string slice,
-   whose topology annotation, when there is one, reads "linear" *)
+(* a slice of a circular record is a plain SeqRecord carrying the ordinary string slice and
+   no topology annotation (Biopython's slice keeps "molecule_type" only) *)
 Theorem CircularRecord_getitem_slice_eq rec lo hi :
   pr_kind rec = KCircularRecord ->
   exists r, CircularRecord_getitem_slice rec (lo, hi) = Ok r
     /\ pr_kind r = KSeqRecord
     /\ pr_seq r = py_slice (pr_seq rec) lo hi
-    /\ pr_annotations r = match pr_annotations rec with Some _ => Some "linear"%string | None => None end.
+    /\ pr_annotations r = ann_sliced (pr_annotations rec).
 Proof.
   intros K. unfold CircularRecord_getitem_slice.
   set (x := bio_getitem_slice rec (lo, hi)).
   assert (Hx : pr_seq x = py_slice (pr_seq rec) lo hi)
     by (unfold x, bio_getitem_slice; cbn [pr_seq fst snd]; apply bio_getslice_seq).
-  assert (Ha : pr_annotations x = pr_annotations rec)
+  assert (Ha : pr_annotations x = ann_sliced (pr_annotations rec))
     by (unfold x, bio_getitem_slice, bio_getslice; rewrite K; reflexivity).
   unfold py_deepcopy. rewrite Ha.
-  destruct (pr_annotations rec); cbn [ann_has_topology is_none negb bind];
+  cbn [ann_has_topology ann_sliced an_topology is_none negb bind];
     eexists; (split; [reflexivity|]); cbn; auto.
 Qed.
